@@ -748,3 +748,103 @@ Proof.
            rewrite Wq, Ib, O in RO. assert (f_hi r - 8 = 0) by lia. rewrite H0 in RO. discriminate.
       * apply threads_other_word; rewrite ?Hpc; auto. discriminate.
 Qed.
+
+Lemma step_rflags c s t q s' : Inv c s -> pcs s t = PR_flags q -> gstep c s t = Some s' -> Inv c s'.
+Proof.
+  intros I Hpc B. unfold gstep in B. rewrite Hpc in B. injection B as <-.
+  destruct (cancelled s) eqn:Ca.
+  - apply Inv_leave_rwakers; rewrite ?Hpc; auto. intros _ X. congruence.
+  - destruct I as [IG T]. destruct (T t) as (_ & _ & _ & _ & T5 & _). rewrite Hpc in T5.
+    apply Inv_other_move; rewrite ?Hpc; auto. split; [exact IG|exact T].
+Qed.
+
+Lemma step_rpend c s t q s' : Inv c s -> pcs s t = PR_pend q -> gstep c s t = Some s' -> Inv c s'.
+Proof.
+  intros I Hpc B. unfold gstep in B. rewrite Hpc in B. injection B as <-.
+  destruct (Z.eqb_spec (pend s) 0) as [P0|P0].
+  - apply Inv_leave_rwakers; rewrite ?Hpc; auto; intros X; contradiction.
+  - destruct I as [IG T]. destruct (T t) as (_ & _ & _ & _ & T5 & _). rewrite Hpc in T5.
+    apply Inv_other_move; rewrite ?Hpc; auto. split; [exact IG|exact T].
+Qed.
+
+Lemma enc_inj r1 r2 : wfr r1 -> wfr r2 -> enc r1 = enc r2 -> r1 = r2.
+Proof. intros W1 W2 E. rewrite <- (dec_enc r1 W1), <- (dec_enc r2 W2), E. reflexivity. Qed.
+
+Lemma step_rwake c s t q s' : Inv c s -> valid_tid t -> pcs s t = PR_wake q -> gstep c s t = Some s' -> Inv c s'.
+Proof.
+  intros I Vt Hpc B. unfold gstep in B. rewrite Hpc in B.
+  pose proof I as [[r G] T].
+  pose proof (not_holder s t (T t)) as K. rewrite Hpc in K. specialize (K eq_refl).
+  destruct (T t) as (T1 & T2 & T3 & T4 & T5 & T6). rewrite Hpc in T1, T2, T3, T4, T5, T6. pose proof (T5 q eq_refl) as Q.
+  pose proof (cannot_enqueue_resp _ s r G) as Resp.
+  pose proof G as G'. destruct G'. pose proof g_wf0 as W. unfold wfr in W.
+  rewrite g_enc0 in B. unfold ENQUEUED in B.
+  rewrite (wakeup_fields_plain r q 1 1 g_wf0 Q eq_refl) in B. cbv zeta in B.
+  pose proof (merged_wf r q g_wf0 Q) as Wm. unfold wfr in Wm.
+  destruct (merged_same r q) as (M1 & M2 & M3 & M4 & M5 & M6 & M7 & M8 & M9 & M10).
+  set (m := Lane_fields.merged r q) in *.
+  set (e' := if can_enqueue r then 1 else f_enq m) in *.
+  assert (He' : 0 <= e' < 2) by (subst e'; destruct (can_enqueue r); lia).
+  set (r' := mk (f_owner m) (f_tr m) e' (f_mq m) (f_ov m) (f_role m) (f_em m) (f_d m) (f_pb m) (f_wq m) (f_ib m) (f_hi m)) in *.
+  assert (W' : wfr r') by (subst r'; apply wfr_mk; lia).
+  assert (Fr : f_owner r' = f_owner r /\ f_ib r' = f_ib r /\ f_wq r' = f_wq r /\ f_enq r' = e' /\ f_d r' = f_d r /\
+               f_tr r' = 0 /\ f_em r' = 0 /\ f_pb r' = 0 /\ f_hi r' = f_hi r /\ f_role r' = f_role r).
+  { subst r'. unfold mk; cbn. repeat split; congruence. }
+  destruct Fr as (F1 & F2 & F3 & F4 & F5 & F6 & F7 & F8 & F9 & F10).
+  destruct (Z.eqb_spec (enc r') (enc r)) as [Same|Diff].
+  - (* nothing to change: the loop gives up *)
+    injection B as <-.
+    assert (CE : can_enqueue r = false).
+    { destruct (can_enqueue r) eqn:CE; [|reflexivity]. exfalso.
+      apply enc_inj in Same; [|assumption|assumption].
+      assert (f_enq r' = f_enq r) by (rewrite Same; reflexivity). rewrite F4 in H. subst e'.
+      unfold can_enqueue in CE. rewrite !andb_true_iff in CE. destruct CE as [[[_ C2] _] _]. apply Z.eqb_eq in C2. lia. }
+    apply Inv_leave_rwakers; rewrite ?Hpc; auto.
+    intros _ _ r0 G0. destruct (Resp CE) as [X|X]; [left; exact X|].
+    right. right. left. destruct G0. assert (enc r0 = enc r) by congruence. apply enc_inj in H; [subst r0; exact X|assumption|assumption].
+  - cbv iota beta in B. rewrite (enq_changed r r' g_wf0 W') in B.
+    assert (P : forall p w, token s = Some (Some w) -> upd (pcs s) t p w = pcs s w).
+    { intros p w E. apply upd_other. congruence. }
+    destruct (can_enqueue r) eqn:CE.
+    + (* the resumer takes the enqueued token and will push the source on its target *)
+      unfold can_enqueue in CE. rewrite !andb_true_iff in CE. destruct CE as [[[C1 C2] C3] C4]. apply Z.eqb_eq in C2.
+      assert (Tk : token s = None).
+      { destruct (token s) eqn:E; [|reflexivity]. assert (f_enq r = 1) by (apply g_enq0; congruence). lia. }
+      assert (Ee : (f_enq r =? f_enq r') = false) by (rewrite F4; subst e'; rewrite C2; reflexivity).
+      rewrite Ee in B. cbn [negb] in B. injection B as <-. rewrite Tk in *. split.
+      * exists r'. constructor; sproj; try assumption; try lia; try (rewrite F9; exact g_hi0).
+        -- rewrite F4. subst e'. split; [discriminate | reflexivity].
+        -- rewrite upd_same. cbn [locked_pc]. split; [|unfold free in *; rewrite F1, F2, F3; exact g_lock0].
+           exact Vt.
+        -- intros _ _. left. discriminate.
+        -- intros w E. injection E as <-. rewrite upd_same. discriminate.
+        -- apply nodup_remove_z. exact g_rnodup0.
+        -- rewrite upd_same. exact g_latched0.
+        -- rewrite upd_same. exact g_running0.
+      * intros u. destruct (Z.eq_dec u t) as [->|N].
+        -- unfold thread_inv. sproj. rewrite upd_same. cbn [token_pc locked_pc waker_pc rwaker_pc owned_of qos_of orb].
+           split; [|split; [|split; [|split; [|split]]]]; try (intros; discriminate).
+           ++ split; reflexivity.
+           ++ split; [discriminate | intros Hin; apply T2 in Hin; discriminate].
+           ++ split; [discriminate | rewrite in_remove_z; intros [_ E]; congruence].
+        -- apply (thread_other s _ t u N (T u)); sproj; [apply upd_other; exact N | | tauto | rewrite in_remove_z; tauto].
+           rewrite Tk. split; intros E; [injection E as E; congruence | discriminate].
+    + (* only the max-qos merge changes the word *)
+      assert (Ee : (f_enq r =? f_enq r') = true) by (rewrite F4; subst e'; rewrite M3; apply Z.eqb_refl).
+      rewrite Ee in B. cbn [negb] in B. injection B as <-.
+      specialize (Resp eq_refl).
+      split.
+      * exists r'.
+        apply (ginv_other_word _ s _ r _ t Idle G K); try reflexivity; try assumption; sproj; try lia.
+        -- apply nodup_remove_z. exact g_rnodup0.
+        -- rewrite F9. exact g_hi0.
+        -- intros _ _. rewrite F9. destruct Resp; auto.
+        -- intros w Tk Ex Hp Hc Hw Hh. rewrite F5. apply (g_dirty0 w); auto. congruence.
+      * intros u. destruct (Z.eq_dec u t) as [->|N].
+        -- unfold thread_inv. sproj. rewrite upd_same. cbn [token_pc locked_pc waker_pc rwaker_pc owned_of qos_of orb].
+           split; [|split; [|split; [|split; [|split]]]]; try (intros; discriminate).
+           ++ split; [discriminate | intros E; congruence].
+           ++ split; [discriminate | intros Hin; apply T2 in Hin; discriminate].
+           ++ split; [discriminate | rewrite in_remove_z; intros [_ E]; congruence].
+        -- apply (thread_other s _ t u N (T u)); sproj; [apply upd_other; exact N | tauto | tauto | rewrite in_remove_z; tauto].
+Qed.
